@@ -562,6 +562,7 @@ package parse
 //@   at call parse.lexExpr#0 after set lx = res
 //@   ensures result != nil
 //@   ensures[nested-scanner-drained;C18] lx != nil && lx.done
+//@   panicensures[nested-scanner-drained-on-panic;C18] lx == nil || lx.done
 
 // ---------------------------------------------------------------------------
 // Command parsers.
@@ -781,6 +782,7 @@ package parse
 //@   at call recover#0 after set recd = res != nil
 //@   at call recover#0 after assume isnil(res) || typeis(res, string) || implements(res, error)
 //@   ensures[drains-before-returning;C18] recd ==> old(t.lex).done
+//@   onpanic[drains;C18] old(t.lex).done
 
 //@ func SoyFile
 //@   props C05 C18
@@ -789,6 +791,7 @@ package parse
 //@   ghost lx *lexer = nil
 //@   at call parse.lex#0 after set lx = res
 //@   ensures[scanner-finished;C18] lx != nil && lx.done
+//@   panicensures[scanner-finished-on-panic;C18] lx == nil || lx.done
 
 //@ func Expr
 //@   props C05 C18
@@ -797,6 +800,7 @@ package parse
 //@   ghost lx *lexer = nil
 //@   at call parse.lexExpr#0 after set lx = res
 //@   ensures[scanner-finished;C18] lx != nil && lx.done
+//@   panicensures[scanner-finished-on-panic;C18] lx == nil || lx.done
 
 // ---------------------------------------------------------------------------
 // C01: operator precedence (checked for the table package init builds; oracle:
